@@ -14,23 +14,48 @@ RULE = ("queue: 2-6 events (queue / plain), 0-3 handlers each (sync scripts: wai
         "environment step or a queue event nested in a queue-event handler.  mode: a real Mode (use_wait_queue on/off) "
         "started by a queue event with generated handlers before/after Mode.start and on mode_<m>_starting; releases "
         "incl. stopping the mode; non-trivial = mode has use_wait_queue or a handler on mode_<m>_starting.  "
-        "sync: relay/boolean/plain posts over 0-5 handlers with generated priorities and result behaviours; "
+        "relay: the real queue_relay_player and queue_event_player configured in three contexts (machine-wide, two modes) "
+        "on three queue events and four wait_for events (two of them shared by relays of different contexts), 0-4 "
+        "generated sync/async handlers around them; one environment operation per loop slice: post a queue event, post a "
+        "queue_event_player trigger, post a wait_for event, start / stop a mode, release a harness wait; non-trivial = a "
+        "relay blocked a queue event.  ballend: ModeController._ball_ending on a real (fake-ball) game with three game "
+        "modes and one non-game mode, each mode's mode_<n>_stopping queue event optionally held open; operations: start, "
+        "stop by a third party, release a held stop, post ball_ending; non-trivial = a ball_ending posted while a mode is "
+        "already stopping or one that stays open over several operations.  "
+        "sync: relay/boolean/plain posts over 0-5 handlers with generated priorities, registered handler kwargs (40 %), "
+        "blocking facilities (30 %), result behaviours incl. dicts with _min_priority and a block_event_player-like "
+        "behaviour; posted WITHOUT arguments in 40 % of the cases, with a posted _min_priority in 10 %; "
         "non-trivial = a dict result (relay) or a False result (boolean) occurs")
 TRUSTED_BASE = [
     "Coq 8.16.1 kernel (coqc), vm_compute for refutation witnesses and for evaluating the model in the correspondence run; no native_compute",
     "axioms: none (every Print Assumptions is 'Closed under the global context')",
     "hand-written model coq/C02/Model.v (EventManager._post/process_event_queue/_process_queue_event/_run_handlers_sequential/"
-    "_run_handlers/_process_event, QueuedEvent, add_async_handler adapter, FIFO model of asyncio call_soon/create_task/Event.set) "
-    "tied to /repo by correspondence: harness/props/c02.py runs the real EventManager / Mode on the rig and the model on the same scripts",
+    "_run_handlers incl. handler kwargs and _min_priority blocking/_process_event, QueuedEvent, add_async_handler adapter, FIFO model "
+    "of asyncio call_soon/create_task/Event.set), coq/C02/Relay.v (QueueRelayPlayer play/_callback/clear_context with registry and "
+    "instance dicts as separate tables, QueueEventPlayer.play, composition with the event-manager machine), coq/C02/ModeCtl.v "
+    "(ModeController._ball_ending/_mode_stopped_callback, Mode.stop/_stopped callback bookkeeping) "
+    "tied to /repo by correspondence: harness/props/c02.py runs the real EventManager / Mode / config players / ModeController on "
+    "the rig and the model on the same scripts",
     "CPython asyncio (call_soon FIFO, Task wake-up through call_soon, Event.set) is MODELLED and validated on every run",
     "harness instrumentation: class-level logging wrappers around QueuedEvent.wait/clear, EventManager._async_handler_coroutine, "
-    "Mode.start and Mode._started inside the worker process (they call the original code)",
+    "EventManager.post (records watched event names), Mode.start, Mode._started, QueueRelayPlayer.play, QueueEventPlayer.play "
+    "(adds a `_psn` entry to the entry's args so that handlers and the callback can be attributed to the post) and "
+    "QueueEventPlayer._callback inside the worker process (they call the original code)",
+    "relay suite: the composition reads the relay player's registrations off the machine log after every batch; sound because "
+    "there is one environment operation per loop slice (no wait_for event / mode stop inside a batch)",
 ]
 ASSUMPTIONS = [
-    "handlers do not raise; conditions are of the form name{k==v}; handler kwargs/conditions of plain-event handlers are C01's part",
+    "handlers do not raise; conditions are of the form name{k==v}; conditions of plain/relay/boolean handlers are C01's part",
     "liveness (callback exactly once) assumes fair clearing and fresh queues: no handler passes the queue object it was "
     "given on into another queue event (Mode.start did; fixes/C02-mode-start-no-queue-forward.patch)",
     "EventManager.stop() task cancellation and exceptions other than CancelledError in coroutine handlers are not covered",
+    "relay suite: a mode is not stopped while a running dispatcher still holds a snapshot with that mode's relay handler "
+    "which it has not reached yet (the mode.active guard of config_play_callback is not modelled; such stops are skipped "
+    "and counted); queue_event_player entries without events_when_finished are not generated",
+    "ballend: a new ball_ending is posted only after the previous one completed (what the game does); modes start and, "
+    "when nobody holds their stopping event, stop within one loop slice",
+    "the fix fixes/C02-queue-event-player-args-callback.patch is applied (modelled: the fixed code; unfixed: "
+    "qep_args_callback_refuted / oracle sig qep-callback-rejects-args)",
 ]
 
 MODE_HID = 900
@@ -48,7 +73,8 @@ def reg_fields(r):
 
 
 def canon_args(kwargs):
-    return sorted([int(k[1:]), v] for k, v in kwargs.items() if k[:1] == "k" and k[1:].isdigit())
+    # (config players hand their args on as strings)
+    return sorted([int(k[1:]), int(v)] for k, v in kwargs.items() if k[:1] == "k" and k[1:].isdigit())
 
 
 def merged_expect(posted, hkw):
@@ -88,6 +114,8 @@ def _patch():
         run.log.append(["W", run.qnum[id(self)]])
         if run.in_mode is not None:
             run.outst.append(["m", self, run.in_mode])
+        elif run.in_relay:
+            run.outst.append(["r", self])          # held by the queue relay player
         elif not run.in_adapter:
             run.outst.append(["w", self])
         return None
@@ -105,7 +133,7 @@ def _patch():
             return None
         run.log.append(["C", run.qnum[id(self)]])
         for k, it in enumerate(run.outst):
-            if it[0] in ("w", "m") and it[1] is self:
+            if it[0] in ("w", "m", "r") and it[1] is self:
                 del run.outst[k]
                 break
         return None
@@ -161,6 +189,56 @@ def _patch():
             run.log.append(["CB", run.mode_psn])
         return o_started(self, **kwargs)
 
+    from mpf.config_players.queue_relay_player import QueueRelayPlayer
+    from mpf.config_players.queue_event_player import QueueEventPlayer
+    o_rplay, o_qplay, o_qcb, o_post = QueueRelayPlayer.play, QueueEventPlayer.play, QueueEventPlayer._callback, E.EventManager.post
+
+    def relay_play(self, settings, context, calling_context, priority=0, **kwargs):
+        run = CUR
+        if run is None or not run.relay or run.aborted or (context, calling_context) not in run.relay_hids:
+            return o_rplay(self, settings, context, calling_context, priority, **kwargs)
+        hid = run.relay_hids[(context, calling_context)]
+        queue = kwargs.get("queue")
+        run.log.append(["I", kwargs.get("_psn"), hid, run.num(queue)])
+        run.log.append(["A", canon_args(kwargs)])
+        run.plays.append(queue)
+        run.in_relay = True
+        try:
+            return o_rplay(self, settings, context, calling_context, priority, **kwargs)
+        finally:
+            run.in_relay = False
+
+    def qep_play(self, settings, context, calling_context, priority=0, **kwargs):
+        run = CUR
+        if run is None or not run.relay or run.aborted or (context, calling_context) not in run.qep_hids:
+            return o_qplay(self, settings, context, calling_context, priority, **kwargs)
+        hid, evid = run.qep_hids[(context, calling_context)]
+        run.log.append(["P", kwargs.get("_psn"), hid])
+        psn = run.alloc()
+        args = dict(settings["args"] or {})
+        args["_psn"] = psn                      # lets the handlers and the callback wrapper identify the post
+        run.posts[str(psn)] = [canon_args(args), None, evid]
+        run.qposts.append(psn)
+        run.qep_psn[psn] = settings["events_when_finished"]
+        run.log.append(["Q", psn])
+        return o_qplay(self, dict(settings, args=args), context, calling_context, priority, **kwargs)
+
+    def qep_callback(self, event, s, *a, **kwargs):
+        run = CUR
+        if run is not None and run.relay and not run.aborted and isinstance(s, dict) and "_psn" in s:
+            run.log.append(["CB", s["_psn"]])
+        return o_qcb(self, event, s, *a, **kwargs)
+
+    def post(self, event, callback=None, **kwargs):
+        run = CUR
+        if run is not None and run.relay and not run.aborted and event in run.watch:
+            run.posted.append([event, kwargs.get("_psn")])
+        return o_post(self, event, callback, **kwargs)
+
+    QueueRelayPlayer.play = relay_play
+    QueueEventPlayer.play = qep_play
+    QueueEventPlayer._callback = qep_callback
+    E.EventManager.post = post
     E.QueuedEvent.wait = wait
     E.QueuedEvent.clear = clear
     E.EventManager._async_handler_coroutine = adapter
@@ -191,6 +269,14 @@ class Run:
         self.posts = {}
         self.pre = []
         self.mode_reqs = []
+        self.relay = False
+        self.in_relay = False
+        self.relay_hids = {}
+        self.qep_hids = {}
+        self.qep_psn = {}
+        self.plays = []
+        self.watch = set()
+        self.posted = []
 
     def preallocate(self, n):
         from mpf.core.events import QueuedEvent
@@ -508,6 +594,12 @@ def nlit(n):
     return "%d%%nat" % n
 
 
+def tlist(items, ty):
+    """list literal; an empty list carries its type (a case file's first element must be typable on its own)"""
+    items = list(items)
+    return coqlist(items) if items else "(@nil %s)" % ty
+
+
 def c_action(a):
     k = a[0]
     if k == "W":
@@ -528,7 +620,7 @@ def c_action(a):
 
 
 def c_zz(kw):
-    return coqlist("(%s, %s)" % (zlit(k), zlit(v)) for k, v in kw)
+    return tlist(("(%s, %s)" % (zlit(k), zlit(v)) for k, v in kw), "(Z * Z)")
 
 
 def c_handler(r):
@@ -540,7 +632,7 @@ def c_handler(r):
 
 def c_body(b):
     if b[0] == "s":
-        return "(HSync %s)" % coqlist(c_action(a) for a in b[1])
+        return "(HSync %s)" % tlist((c_action(a) for a in b[1]), "action")
     return "(HAsync %s)" % blit(b[1])
 
 
@@ -566,14 +658,14 @@ def c_obs(o):
 
 
 def c_outcome(out):
-    outst = coqlist("(%s %s)" % ("OWait" if k == "w" else "OFut", nlit(q)) for k, q in out["outst"])
-    return "(mkO %s %s %s %s true)" % (coqlist(c_obs(o) for o in out["log"]), nlit(out["pending"]), outst,
+    outst = tlist(("(%s %s)" % ("OWait" if k == "w" else "OFut", nlit(q)) for k, q in out["outst"]), "oitem")
+    return "(mkO %s %s %s %s true)" % (tlist((c_obs(o) for o in out["log"]), "obs"), nlit(out["pending"]), outst,
                                        blit(out["err"]))
 
 
 def c_input(regs, env):
-    r = coqlist(c_handler(x) for x in regs)
-    e = coqlist(coqlist(c_action(a) for a in b) for b in env)
+    r = tlist((c_handler(x) for x in regs), "(Z * handler)")
+    e = tlist((tlist((c_action(a) for a in b), "action") for b in env), "(list action)")
     return "(%s, %s)" % (r, e)
 
 
@@ -947,7 +1039,7 @@ def mode_regs(case, out):
 def coq_mode(case, out):
     if out.get("loop_exception") or out.get("boot_error") or not log_ok(out):
         return None
-    env = coqlist(coqlist(c_action(a) for a in b) for b in out["resolved"])
+    env = tlist((tlist((c_action(a) for a in b), "action") for b in out["resolved"]), "(list action)")
     return "((%s, %s), %s)" % (mode_regs(case, out), env, c_outcome(out))
 
 
@@ -1027,34 +1119,618 @@ def describe_mode(case):
 
 
 # ------------------------------------------------------------------------------------------------
+# suite "relay": queue_relay_player / queue_event_player (real config players, three contexts) as clients of queue events
+#   contexts: 0 = machine-wide config ("_global"), 1 = mode ra (priority 100), 2 = mode rb (priority 200)
+#   queue events 1..3 ("c02r_q<n>"), wait_for events 1..4 ("c02r_w<n>"), trigger events 11..14 ("c02r_t<n>")
+RCTX = {0: "_global", 1: "ra", 2: "rb"}
+RPRIO = {0: 0, 1: 100, 2: 200}
+# relay entries: (context, queue event, handler id, wait_for event)
+RELAYS = [(0, 1, 801, 1), (0, 2, 802, 2), (1, 1, 811, 3), (1, 3, 812, 1), (2, 2, 821, 2), (2, 3, 822, 4)]
+# queue_event_player entries: (context, trigger event, handler id, queue event, args); every entry has args AND
+# events_when_finished
+QEPS = [(0, 11, 851, 1, [[1, 1]]), (0, 12, 852, 3, [[2, 0]]), (1, 13, 861, 2, [[2, 2]]), (2, 14, 871, 1, [[1, 0], [3, 1]])]
+RELAY_HIDS = set(r[2] for r in RELAYS)
+
+
+def _relay_sections(ctx):
+    qr = {}
+    for c, ev, hid, w in RELAYS:
+        if c == ctx:
+            qr["c02r_q%d" % ev] = {"post": "c02r_p%d" % hid, "wait_for": "c02r_w%d" % w, "pass_args": hid == 802}
+    qe = {}
+    for c, t, hid, ev, args in QEPS:
+        if c == ctx:
+            qe["c02r_t%d" % t] = {"queue_event": "c02r_q%d" % ev, "events_when_finished": "c02r_f%d" % t,
+                                  "args": {"k%d" % k: str(v) for k, v in args}}
+    return {"queue_relay_player": qr, "queue_event_player": qe}
+
+
+def _boot_relay_rig():
+    from rig import Rig
+    config = dict(_relay_sections(0), modes=["ra", "rb"])
+    modes = {}
+    for c in (1, 2):
+        modes[RCTX[c]] = dict(_relay_sections(c), mode={"start_events": ["c02r_start_" + RCTX[c]],
+                                                         "stop_events": ["c02r_stop_" + RCTX[c]],
+                                                         "priority": RPRIO[c], "game_mode": False})
+    _W["rrig"] = Rig(config, modes=modes).start()
+
+
+def _init_relay():
+    if _W.get("boot_error"):
+        return
+    try:
+        _patch()
+        if _W.get("rrig") is None:
+            _boot_relay_rig()
+    except BaseException as e:
+        _W["boot_error"] = "%s: %s" % (type(e).__name__, str(e)[:300])
+
+
+def gen_relay(rng, tier, i):
+    regs = []
+    for hid in range(1, rng.choice([0, 1, 1, 2, 2, 3, 4]) + 1):
+        r = rng.random()
+        if r < 0.3:
+            body = ["a", rng.random() < 0.6, rng.random() < 0.2]
+        elif r < 0.7:
+            body = ["s", [["W"]] + ([["CO"]] if rng.random() < 0.2 else [])]
+        else:
+            body = ["s", []]
+        regs.append([rng.randint(1, 3), hid, rng.choice([1, 50, 150, 250]), body])
+    ops = []
+    for c in (1, 2):
+        if rng.random() < 0.65:
+            ops.append(["START", c])
+    rng.shuffle(ops)
+    for _ in range(rng.randint(3, 11)):
+        r = rng.random()
+        if r < 0.35:
+            ops.append(["PQ", rng.randint(1, 3), False, gen_kw(rng)])
+        elif r < 0.47:
+            ops.append(["PP", rng.randint(11, 14)])
+        elif r < 0.67:
+            ops.append(["WF", rng.randint(1, 4)])
+        elif r < 0.77:
+            ops.append(["STOP", rng.choice([1, 2])])
+        elif r < 0.84:
+            ops.append(["START", rng.choice([1, 2])])
+        elif r < 0.97:
+            ops.append(["CN", rng.randrange(4)])
+        else:
+            ops.append(["XN", rng.randrange(4)])
+    if rng.random() < 0.75:              # fair release: every wait_for event (twice: relays chain), every harness wait
+        for _ in range(3):
+            ws = [1, 2, 3, 4]
+            rng.shuffle(ws)
+            ops += [["WF", w] for w in ws] + [["CN", 0] for _ in range(3)]
+    return {"regs": regs, "ops": ops}
+
+
+def _relay_player(machine, section):
+    return getattr(machine, section)          # machine.queue_relay_player
+
+
+def _relay_tables(rig, run):
+    """instance dicts and registered wake-up handlers of the real QueueRelayPlayer, as queue numbers"""
+    player = _relay_player(rig.machine, "queue_relay_player")
+    held = set()
+    for ctx, d in player.instances.items():
+        for q in d.get("queue_relay_player", {}):
+            held.add(id(q))
+    wake = []
+    for w in range(1, 5):
+        for h in rig.machine.events.registered_handlers.get("c02r_w%d" % w, []):
+            q = h.kwargs.get("queue")
+            if q is not None and id(q) in run.qnum:
+                wake.append(run.qnum[id(q)])
+    return [run.qnum[id(q)] for q in run.plays if id(q) in held], sorted(wake), len(held)
+
+
+def run_relay(case):
+    global CUR
+    _init_relay()
+    if _W.get("boot_error"):
+        return dict(_boot_failed(), resolved=[], marks=[], relay_held=[], relay_wake=[], posted=[], skipped=0)
+    rig = _W["rrig"]
+    em = rig.machine.events
+    run = Run(em, rig.loop, "c02r")
+    run.relay = True
+    for ev in (1, 2, 3):
+        run.evname[ev] = "c02r_q%d" % ev
+    for c, ev, hid, w in RELAYS:
+        run.relay_hids[(RCTX[c], "c02r_q%d" % ev)] = hid
+        run.watch.add("c02r_p%d" % hid)
+    for c, t, hid, ev, args in QEPS:
+        run.evname[t] = "c02r_t%d" % t
+        run.qep_hids[(RCTX[c], "c02r_t%d" % t)] = (hid, ev)
+        run.watch.add("c02r_f%d" % t)
+    before = list(em._queue_tasks)
+    CUR = run
+    reboot = True
+    try:
+        for ev, hid, prio, body in case["regs"]:
+            run.register(ev, hid, prio, body)
+        resolved, marks, skipped = [], [], 0
+        for op in case["ops"]:
+            if run.aborted:
+                break
+            k = op[0]
+            if k in ("PQ", "PP"):
+                run.execute([op], None)
+            elif k in ("CN", "XN"):
+                others = [j for j, it in enumerate(run.outst) if it[0] != "r"]     # a relay's wait is not ours to clear
+                if not others:
+                    continue
+                op = [k, others[op[1] % len(others)]]
+                run.execute([op], None)
+            elif k == "WF":
+                em.post("c02r_w%d" % op[1])
+            else:
+                mode = rig.machine.modes[RCTX[op[1]]]
+                if k == "START":
+                    if mode.active or mode._starting or mode.stopping:
+                        continue
+                    mode.start()
+                else:
+                    if not mode.active or mode.stopping:
+                        continue
+                    if _stop_excluded(run, op[1]):
+                        skipped += 1
+                        continue
+                    mode.stop()
+            resolved.append(op)
+            rig.advance(0.125)
+            marks.append(len(run.log))
+            if k in ("START", "STOP") and bool(rig.machine.modes[RCTX[op[1]]].active) != (k == "START"):
+                run.log.append(["E"])        # (never on a sound tree: nothing holds the mode's own queue events)
+                run.failed = run.aborted = True
+        tasks = [t for t in em._queue_tasks if t not in before]
+        out = run.observe(tasks)
+        held, wake, nheld = _relay_tables(rig, run)
+        out.update(qposts=run.qposts, shared=False, posts=run.posts, resolved=resolved, marks=marks, relay_held=held,
+                   relay_wake=wake, relay_nheld=nheld, posted=run.posted, skipped=skipped,
+                   qep={str(k): v for k, v in run.qep_psn.items()})
+        run.cleanup(tasks)
+        CUR = None
+        for w in range(1, 5):
+            em.post("c02r_w%d" % w)
+        for c in (1, 2):
+            rig.machine.modes[RCTX[c]].stop()
+        rig.advance(0.125)
+        rig.advance(0.125)
+        _, _, nheld = _relay_tables(rig, run)
+        reboot = bool(nheld or rig.exception() or any(rig.machine.modes[RCTX[c]].active or rig.machine.modes[RCTX[c]]._starting
+                                                      or rig.machine.modes[RCTX[c]].stopping for c in (1, 2))
+                      or any(em.registered_handlers.get("c02r_w%d" % w) for w in range(1, 5)))
+        if rig.exception():
+            out["loop_exception"] = str(rig.exception())[:300]
+        return out
+    except Exception as e:
+        run.aborted = True
+        out = run.observe([])
+        out.update(qposts=run.qposts, shared=False, posts=run.posts, resolved=[], marks=[], relay_held=[], relay_wake=[],
+                   relay_nheld=0, posted=[], skipped=0, qep={}, loop_exception="%s: %s" % (type(e).__name__, str(e)[:300]))
+        return out
+    finally:
+        CUR = None
+        if reboot:
+            _drop_rig("rrig")
+
+
+def _stop_excluded(run, ctx):
+    """NOT MODELLED: a dispatcher that is still running holds a snapshot with the mode's play handler which it has not
+    reached yet; after the stop config_play_callback would ignore the call (mode.active guard)."""
+    done = set(o[1] for o in run.log if o[0] == "CB")
+    for c, ev, hid, w in RELAYS:
+        if c != ctx:
+            continue
+        for psn in run.qposts:
+            if psn in done or run.posts.get(str(psn), [None, None, None])[2] != ev:
+                continue
+            if not any(o[0] == "I" and o[1] == psn and o[2] == hid for o in run.log):
+                return True
+    return False
+
+
+def c_cop(op):
+    k = op[0]
+    if k == "WF":
+        return "(CWaitFor %s)" % zlit(op[1])
+    if k == "START":
+        return "(CStart %s)" % zlit(op[1])
+    if k == "STOP":
+        return "(CStop %s)" % zlit(op[1])
+    return "(CEnv [%s])" % c_action(op)
+
+
+RELAY_CFG_COQ = "(%s, %s)" % (
+    coqlist("(mkRC %d %d %d %d %d)" % (c, ev, hid, RPRIO[c], w) for c, ev, hid, w in RELAYS),
+    coqlist("(mkQC %d %d %d %d %d %s)" % (c, t, hid, RPRIO[c], ev, c_zz(args)) for c, t, hid, ev, args in QEPS))
+
+
+def coq_relay(case, out):
+    if out.get("loop_exception") or out.get("boot_error") or not log_ok(out):
+        return None
+    regs = tlist((c_handler(r) for r in case["regs"]), "(Z * handler)")
+    ops = tlist((c_cop(op) for op in out["resolved"]), "cop")
+    held = tlist((nlit(q) for q in out["relay_held"]), "nat")
+    return "(((c02_relay_cfg, %s), %s), ((%s, false), %s))" % (regs, ops, c_outcome(out), held)
+
+
+def oracle_relay(case, out):
+    """Independent of the model: replays the environment operations over the configuration tables."""
+    regs = {}
+    for c, ev, hid, w in RELAYS:
+        regs.setdefault(ev, []).append((hid, RPRIO[c]))
+    for c, t, hid, ev, args in QEPS:
+        regs.setdefault(t, []).append((hid, RPRIO[c]))
+    for ev, hid, prio, body in case["regs"]:
+        regs.setdefault(ev, []).append((hid, prio))
+    if out.get("loop_exception") and "QueueEventPlayer._callback() got an unexpected keyword argument" in out["loop_exception"]:
+        return [{"sig": "qep-callback-rejects-args",
+                 "what": "queue_event_player entry with args and events_when_finished: the completion callback of its "
+                         "queue event raises " + out["loop_exception"]}]
+    fails = oracle_log(out, regs, False, check_live=True)
+    if out.get("loop_exception") or out.get("boot_error") or out["err"]:
+        return fails
+    log = out["log"]
+    entry = dict((hid, (c, w)) for c, ev, hid, w in RELAYS)
+    held = {}                          # queue number -> (context, wait_for event) of the relay that blocks it
+    start = 0
+    for op, end in zip(out["resolved"], out["marks"]):
+        seg = log[start:end]
+        start = end
+        if op[0] == "WF":
+            want = set(q for q, (c, w) in held.items() if w == op[1])
+        elif op[0] == "STOP":
+            want = set(q for q, (c, w) in held.items() if c == op[1])
+        else:
+            want = set()
+        before = dict(held)
+        for o in seg:
+            if o[0] == "I" and o[2] in entry:
+                held[o[3]] = entry[o[2]]
+        got = set(o[1] for o in seg if o[0] == "C" and (o[1] in before))
+        for q in sorted(want - got):
+            fails.append({"sig": "relay-wait-orphaned",
+                          "what": "%s: queue #%s blocked by the relay of context %s (wait_for w%s) was not released"
+                                  % (op, q, before[q][0], before[q][1])})
+        for q in sorted(got - want):
+            fails.append({"sig": "relay-cleared-wrongly",
+                          "what": "%s: queue #%s blocked by the relay of context %s (wait_for w%s) was released"
+                                  % (op, q, before[q][0], before[q][1])})
+        for q in got:
+            held.pop(q, None)
+        if fails:
+            return fails
+    if sorted(out["relay_held"]) != sorted(held):
+        fails.append({"sig": "relay-tables-disagree", "what": "instance dicts hold queues %s, blocked by relays: %s"
+                                                              % (sorted(out["relay_held"]), sorted(held))})
+    if out["relay_wake"] != sorted(held):
+        fails.append({"sig": "relay-wait-orphaned",
+                      "what": "queues blocked by relays: %s, but wake-up handlers are registered only for %s: the others "
+                              "can never complete" % (sorted(held), out["relay_wake"])})
+    # every relay play posts its `post` event once; every queue_event_player post that completed posted its finished event
+    nplay = {}
+    for o in log:
+        if o[0] == "I" and o[2] in entry:
+            nplay[o[2]] = nplay.get(o[2], 0) + 1
+    for hid in entry:
+        n = sum(1 for e, _ in out["posted"] if e == "c02r_p%d" % hid)
+        if n != nplay.get(hid, 0):
+            fails.append({"sig": "relay-post-event", "what": "relay %s played %d times, posted c02r_p%s %d times"
+                                                             % (hid, nplay.get(hid, 0), hid, n)})
+    cbs = [o[1] for o in log if o[0] == "CB"]
+    for psn, fin in out.get("qep", {}).items():
+        n = sum(1 for e, p in out["posted"] if e == fin and p == int(psn))
+        if n != cbs.count(int(psn)) or n > 1:
+            fails.append({"sig": "qep-finished-event", "what": "queue_event_player post %s completed %d times, %s posted %d times"
+                                                               % (psn, cbs.count(int(psn)), fin, n)})
+    return fails
+
+
+def shrink_relay(case):
+    regs, ops = case["regs"], case["ops"]
+    for i in range(len(ops)):
+        yield dict(case, ops=ops[:i] + ops[i + 1:])
+    for i in range(len(regs)):
+        yield dict(case, regs=regs[:i] + regs[i + 1:])
+    for i, r in enumerate(regs):
+        if r[3] != ["s", []]:
+            yield dict(case, regs=regs[:i] + [r[:3] + [["s", []]]] + regs[i + 1:])
+
+
+def nontrivial_relay(case, out):
+    log = out.get("log", [])
+    return any(o[0] == "I" and o[2] in RELAY_HIDS for o in log)
+
+
+def describe_relay(case):
+    ops = [o[0] for o in case["ops"]]
+    return "handlers=%d stops=%d qep=%s" % (len(case["regs"]), min(ops.count("STOP"), 2), "PP" in ops)
+
+
+# ------------------------------------------------------------------------------------------------
+# suite "ballend": ModeController._ball_ending over real game modes in arbitrary lifecycle phases
+BE_MODES = [("g1", True, True), ("g2", True, True), ("g3", True, True), ("n1", False, True)]   # name, game_mode, stop_on_ball_end
+
+
+def _boot_ballend_rig():
+    from unittest.mock import MagicMock
+    from rig import FakeGameRig
+    modes = {}
+    for name, game, auto in BE_MODES:
+        modes[name] = {"mode": {"start_events": ["c02b_start_" + name], "stop_events": ["c02b_stop_" + name],
+                                "priority": 100, "game_mode": game, "stop_on_ball_end": auto}}
+    rig = FakeGameRig({"modes": [m[0] for m in BE_MODES]}, modes=modes).start()
+    rig.machine.playfield.add_ball = MagicMock()
+    rig.machine.events.post("game_start")
+    rig.advance(1)
+    if rig.machine.game is None or rig.machine.game.player is None:
+        raise AssertionError("no game")
+    rig.machine.game.balls_in_play = 1
+    _W["brig"] = rig
+
+
+def _init_ballend():
+    if _W.get("boot_error"):
+        return
+    try:
+        _patch()
+        if _W.get("brig") is None:
+            _boot_ballend_rig()
+    except BaseException as e:
+        _W["boot_error"] = "%s: %s" % (type(e).__name__, str(e)[:300])
+
+
+def gen_ballend(rng, tier, i):
+    n = len(BE_MODES)
+    holds = [rng.random() < 0.5 for _ in range(n)]
+    ops = []
+    for _ in range(rng.randint(4, 14)):
+        r = rng.random()
+        if r < 0.35:
+            ops.append(["START", rng.randrange(n)])
+        elif r < 0.55:
+            ops.append(["STOP", rng.randrange(n)])
+        elif r < 0.75:
+            ops.append(["REL", rng.randrange(n)])
+        else:
+            ops.append(["BE"])
+    if rng.random() < 0.7:
+        ops += [["REL", j] for j in range(n)]
+    return {"holds": holds, "ops": ops}
+
+
+def run_ballend(case):
+    _init_ballend()
+    if _W.get("boot_error"):
+        return {"boot_error": _W["boot_error"], "resolved": [], "trace": []}
+    rig = _W["brig"]
+    m = rig.machine
+    em = m.events
+    mc = m.mode_controller
+    modes = [m.modes[name] for name, _, _ in BE_MODES]
+    held = {}
+    done = [0]
+    posted = [0]
+    keys = []
+    reboot = True
+    try:
+        def make_hold(j):
+            def hold(queue, **kwargs):
+                queue.wait()
+                held[j] = queue
+            return hold
+        for j, h in enumerate(case["holds"]):
+            if h:
+                keys.append(em.add_handler("mode_%s_stopping" % BE_MODES[j][0], make_hold(j), priority=5))
+
+        def cb(**kwargs):
+            done[0] += 1
+
+        def snap():
+            phases = [2 if md.stopping else (1 if md.active else 0) for md in modes]
+            q = mc.queue
+            return {"phases": phases, "count": int(mc.mode_stop_count), "locked": bool(q is not None and q.waiter and posted[0] > done[0]),
+                    "done": done[0], "starting": [bool(md._starting) for md in modes]}
+        resolved, trace = [], []
+        for op in case["ops"]:
+            k = op[0]
+            if k == "START":
+                md = modes[op[1]]
+                if md.active or md._starting or md.stopping:
+                    continue
+                md.start()
+            elif k == "STOP":
+                md = modes[op[1]]
+                if not md.active or md.stopping:
+                    continue
+                md.stop()
+            elif k == "REL":
+                if op[1] not in held:
+                    continue
+                held.pop(op[1]).clear()
+            else:
+                if posted[0] > done[0]:
+                    continue                 # the previous ball_ending has not completed: the game does not end the ball again
+                posted[0] += 1
+                em.post_queue("ball_ending", cb)
+            resolved.append(op)
+            rig.advance(0.125)
+            trace.append(snap())
+        out = {"resolved": resolved, "trace": trace}
+        # clean up: release everything, stop every mode, let a pending ball_ending complete
+        for key in keys:
+            em.remove_handler_by_key(key)
+        for j in list(held):
+            held.pop(j).clear()
+        rig.advance(0.125)
+        for md in modes:
+            md.stop()
+        rig.advance(0.125)
+        rig.advance(0.125)
+        reboot = bool(rig.exception() or any(md.active or md.stopping or md._starting for md in modes)
+                      or m.game is None or (mc.queue is not None and mc.queue.waiter))
+        if rig.exception():
+            out["loop_exception"] = str(rig.exception())[:300]
+        return out
+    except Exception as e:
+        return {"resolved": [], "trace": [], "loop_exception": "%s: %s" % (type(e).__name__, str(e)[:300])}
+    finally:
+        if reboot:
+            _drop_rig("brig")
+
+
+BE_CFG_COQ = coqlist("(%s, %s)" % (blit(g), blit(a)) for _, g, a in BE_MODES)
+
+
+def coq_ballend(case, out):
+    if out.get("loop_exception") or out.get("boot_error"):
+        return None
+    if any(any(t["starting"]) for t in out["trace"]):
+        return None                          # (never: nobody holds mode_<n>_starting here)
+    ops = []
+    for op in out["resolved"]:
+        k = op[0]
+        ops.append("BBallEnding" if k == "BE" else "(%s %s)" % ({"START": "BStart", "STOP": "BStop", "REL": "BRelease"}[k], nlit(op[1])))
+    tr = tlist(("(%s, %s, %s, %s, false)" % ("[" + ";".join(zlit(p) for p in t["phases"]) + "]", zlit(t["count"]),
+                                              blit(t["locked"]), nlit(t["done"])) for t in out["trace"]),
+               "(list Z * Z * bool * nat * bool)")
+    return "((%s, %s, %s), %s)" % (BE_CFG_COQ, coqlist(blit(h) for h in case["holds"]), tlist(ops, "beop"), tr)
+
+
+def oracle_ballend(case, out):
+    """The property on the implementation's trace: the ball_ending queue event completes exactly once, not before
+    every game mode with stop_on_ball_end that was running (active or already stopping) when it was posted has stopped,
+    and as soon as they all have."""
+    if out.get("boot_error"):
+        return [{"sig": "machine-does-not-boot", "what": "MPF does not boot on this tree: " + out["boot_error"]}]
+    if out.get("loop_exception"):
+        return [{"sig": "loop-exception", "what": "exception in the event loop: " + out["loop_exception"]}]
+    fails = []
+    open_set = None
+    prev = {"phases": [0] * len(BE_MODES), "done": 0}
+    for n, (op, t) in enumerate(zip(out["resolved"], out["trace"])):
+        if op[0] == "BE":
+            open_set = [j for j, (_, game, auto) in enumerate(BE_MODES) if game and auto and prev["phases"][j] != 0]
+            base = prev["done"]
+        if open_set is not None:
+            open_set = [j for j in open_set if t["phases"][j] != 0]      # (a mode that stopped may be started again)
+            running = [BE_MODES[j][0] for j in open_set]
+            if t["done"] - base > 1:
+                fails.append({"sig": "callback-twice", "what": "op %d %s: ball_ending completed %d times" % (n, op, t["done"] - base)})
+            elif t["done"] - base == 1:
+                if running:
+                    fails.append({"sig": "ball-ending-before-modes-stopped",
+                                  "what": "op %d %s: ball_ending completed while %s (running when the ball ended) had not "
+                                          "finished stopping" % (n, op, running)})
+                open_set = None
+            elif not running:
+                fails.append({"sig": "ball-ending-never-completes",
+                              "what": "op %d %s: every mode the controller waits for has stopped but ball_ending did not "
+                                      "complete (mode_stop_count=%s)" % (n, op, t["count"])})
+                open_set = None
+        elif t["done"] != prev["done"]:
+            fails.append({"sig": "callback-twice", "what": "op %d %s: ball_ending completed without having been posted" % (n, op)})
+        if fails:
+            break
+        prev = t
+    return fails
+
+
+def shrink_ballend(case):
+    ops = case["ops"]
+    for i in range(len(ops)):
+        yield dict(case, ops=ops[:i] + ops[i + 1:])
+    for j, h in enumerate(case["holds"]):
+        if h:
+            yield dict(case, holds=case["holds"][:j] + [False] + case["holds"][j + 1:])
+
+
+def nontrivial_ballend(case, out):
+    # a ball_ending posted while some game mode is already stopping, or one that stays open over several operations
+    tr = out.get("trace", [])
+    prev = None
+    for op, t in zip(out.get("resolved", []), tr):
+        if op[0] == "BE" and (t["locked"] or (prev and 2 in prev["phases"])):
+            return True
+        prev = t
+    return False
+
+
+def describe_ballend(case):
+    ops = [o[0] for o in case["ops"]]
+    return "holds=%d ball_endings=%d" % (sum(case["holds"]), min(ops.count("BE"), 3))
+
+
+# ------------------------------------------------------------------------------------------------
 # suite "sync": relay / boolean / plain events through _run_handlers and _process_event
+#   handler = [hid, prio, behaviour, registered kwargs [[k, v]], blocking facility id or None]
+#   posted  = kw [[k, v]] (often empty) and mp = None | [all, [[facility, prio]]]  (kwargs['_min_priority'])
+def gen_mp(rng):
+    return [rng.choice([0, 0, 2, 6]), [[f, rng.choice([0, 2, 6, 11])] for f in rng.sample([1, 2], rng.randint(0, 2))]]
+
+
 def gen_result(rng):
     r = rng.random()
     if r < 0.2:
         return ["n"]
-    if r < 0.45:
+    if r < 0.4:
         return ["b", rng.random() < 0.5]
-    if r < 0.6:
+    if r < 0.5:
         return ["i", rng.choice([0, 0, 1, 5, -3])]
-    return ["d", [[rng.randint(1, 4), rng.randint(-5, 5)] for _ in range(rng.choice([0, 1, 1, 2, 3]))]]
+    d = [[rng.randint(1, 4), rng.randint(-5, 5)] for _ in range(rng.choice([0, 1, 1, 2, 3]))]
+    if r < 0.62:
+        return ["dm", d[:1], gen_mp(rng)]
+    return ["d", d]
 
 
 def gen_sync(rng, tier, i):
-    typ = rng.choice(["relay", "relay", "boolean", "boolean", "plain"])
+    typ = rng.choice(["relay", "relay", "relay", "boolean", "boolean", "plain"])
     hs = []
     for hid in range(1, rng.choice([0, 1, 2, 3, 4, 5, 5]) + 1):
         r = rng.random()
-        if r < 0.5:
+        if r < 0.45:
             beh = ["const", gen_result(rng)]
-        elif r < 0.8:
+        elif r < 0.7:
             beh = ["incr", rng.randint(1, 4)]
-        else:
+        elif r < 0.85:
             beh = ["falseif", rng.randint(1, 4), rng.randint(0, 3)]
-        hs.append([hid, rng.choice([1, 1, 2, 5, 5, 10]), beh])
+        else:
+            beh = ["block", rng.choice([1, 2]), rng.choice([2, 6, 11])]
+        hkw = []
+        if rng.random() < 0.4:
+            hkw = [[k, rng.randint(0, 3)] for k in rng.sample([1, 2, 3, 4], rng.choice([1, 1, 2]))]
+        fac = rng.choice([1, 2]) if rng.random() < 0.3 else None
+        hs.append([hid, rng.choice([1, 1, 2, 5, 5, 10]), beh, hkw, fac])
     kw = []
-    for k in rng.sample([1, 2, 3, 4, 5], rng.randint(0, 3)):
-        kw.append([k, rng.randint(0, 3)])
-    return {"type": typ, "hs": hs, "kw": kw}
+    if rng.random() >= 0.4:                # 40 %: posted WITHOUT arguments
+        for k in rng.sample([1, 2, 3, 4, 5], rng.randint(1, 3)):
+            kw.append([k, rng.randint(0, 3)])
+    mp = gen_mp(rng) if rng.random() < 0.1 else None
+    return {"type": typ, "hs": hs, "kw": kw, "mp": mp}
+
+
+def sync_fields(h):
+    h = list(h)
+    return h + [[], None][len(h) - 3:] if len(h) < 5 else h
+
+
+def _py_mp(mp):
+    d = {"all": mp[0]}
+    for f, p in mp[1]:
+        d["f%d" % f] = p
+    return d
+
+
+def _canon_mp(m):
+    if m is None:
+        return None
+    if not isinstance(m, dict) or "all" not in m:
+        return ["?", repr(m)]
+    return [m["all"], sorted([int(k[1:]), v] for k, v in m.items() if k != "all")]
 
 
 def _py_result(t):
@@ -1065,6 +1741,8 @@ def _py_result(t):
     d = {}
     for k, v in t[1]:
         d["k%d" % k] = v
+    if t[0] == "dm":
+        d["_min_priority"] = _py_mp(t[2])
     return d
 
 
@@ -1076,12 +1754,15 @@ def _tag_result(r):
     if isinstance(r, int):
         return ["i", r]
     if isinstance(r, dict):
-        return ["d", sorted([int(k[1:]), v] for k, v in r.items())]
+        d = sorted([int(k[1:]), v] for k, v in r.items() if k != "_min_priority")
+        if "_min_priority" in r:
+            return ["dm", d, _canon_mp(r["_min_priority"])]
+        return ["d", d]
     return ["?", repr(r)]
 
 
 def _canon_kw(kwargs):
-    return sorted([int(k[1:]), v] for k, v in kwargs.items() if k != "ev_result")
+    return sorted([int(k[1:]), v] for k, v in kwargs.items() if k not in ("ev_result", "_min_priority"))
 
 
 def run_sync(case):
@@ -1099,22 +1780,33 @@ def run_sync(case):
 
     def make(hid, beh):
         def handler(**kwargs):
-            seen.append([hid, _canon_kw(kwargs)])
+            seen.append([hid, _canon_kw(kwargs), _canon_mp(kwargs.get("_min_priority"))])
             if beh[0] == "const":
                 r = _py_result(beh[1])
             elif beh[0] == "incr":
                 r = {"k%d" % beh[1]: kwargs.get("k%d" % beh[1], 0) + 1}
+            elif beh[0] == "block":           # what block_event_player / shot do (on a copy)
+                m = dict(kwargs.get("_min_priority", {"all": 0}))
+                m["f%d" % beh[1]] = beh[2]
+                r = {"_min_priority": m}
             else:
                 r = not (kwargs.get("k%d" % beh[1]) == beh[2])
             returned.append([hid, _tag_result(r)])
             return r
         return handler
-    keys = [em.add_handler(name, make(hid, beh), priority=prio) for hid, prio, beh in case["hs"]]
+    keys = []
+    for h in case["hs"]:
+        hid, prio, beh, hkw, fac = sync_fields(h)
+        keys.append(em.add_handler(name, make(hid, beh), priority=prio,
+                                   blocking_facility=None if fac is None else "f%d" % fac,
+                                   **{"k%d" % k: v for k, v in hkw}))
 
     def cb(**kwargs):
-        cbs.append({"kw": _canon_kw(kwargs), "has": "ev_result" in kwargs,
+        cbs.append({"kw": _canon_kw(kwargs), "mp": _canon_mp(kwargs.get("_min_priority")), "has": "ev_result" in kwargs,
                     "evr": _tag_result(kwargs.get("ev_result"))})
     kw = {"k%d" % k: v for k, v in case["kw"]}
+    if case.get("mp") is not None:
+        kw["_min_priority"] = _py_mp(case["mp"])
     post = {"relay": em.post_relay, "boolean": em.post_boolean, "plain": em.post}[case["type"]]
     try:
         post(name, cb, **kw)
@@ -1128,7 +1820,15 @@ def run_sync(case):
 
 
 def c_kw(kw):
-    return coqlist("(%s, %s)" % (zlit(k), zlit(v)) for k, v in kw)
+    return tlist(("(%s, %s)" % (zlit(k), zlit(v)) for k, v in kw), "(Z * Z)")
+
+
+def c_mp(mp):
+    return "(%s, %s)" % (zlit(mp[0]), c_kw(sorted(mp[1])))      # facility map in canonical (sorted) form
+
+
+def c_omp(mp):
+    return "(@None minprio)" if mp is None else "(Some %s)" % c_mp(mp)
 
 
 def c_result(t):
@@ -1138,41 +1838,56 @@ def c_result(t):
         return "(RBool %s)" % blit(t[1])
     if t[0] == "i":
         return "(RInt %s)" % zlit(t[1])
+    if t[0] == "dm":
+        return "(RDictMP %s %s)" % (c_kw(t[1]), c_mp(t[2]))
     return "(RDict %s)" % c_kw(t[1])
 
 
 def c_beh(b):
     if b[0] == "const":
         t = b[1]
-        if t[0] == "d":      # a dict literal with repeated keys keeps the last value
+        if t[0] in ("d", "dm"):      # a dict literal with repeated keys keeps the last value
             d = {}
             for k, v in t[1]:
                 d[k] = v
-            t = ["d", [[k, v] for k, v in d.items()]]
+            t = [t[0], [[k, v] for k, v in d.items()]] + t[2:]
         return "(BConst %s)" % c_result(t)
     if b[0] == "incr":
         return "(BIncr %s)" % zlit(b[1])
+    if b[0] == "block":
+        return "(BBlock %s %s)" % (zlit(b[1]), zlit(b[2]))
     return "(BFalseIf %s %s)" % (zlit(b[1]), zlit(b[2]))
+
+
+def _mp_ok(m):
+    return m is None or (len(m) == 2 and m[0] != "?")
 
 
 def coq_sync(case, out):
     if out.get("loop_exception") or out.get("boot_error") or len(out["cbs"]) != 1:
         return None
     cb = out["cbs"][0]
+    if not all(_mp_ok(s[2]) for s in out["seen"]) or not _mp_ok(cb["mp"]) or cb["evr"][0] == "?":
+        return None
     typ = {"relay": "TRelay", "boolean": "TBoolean", "plain": "TPlain"}[case["type"]]
-    inp = "(%s, %s, %s)" % (typ, coqlist("(%s, %s, %s)" % (zlit(h), zlit(p), c_beh(b)) for h, p, b in case["hs"]),
-                            c_kw(case["kw"]))
+    regs = []
+    for h in case["hs"]:
+        hid, prio, beh, hkw, fac = sync_fields(h)
+        regs.append("(mkSR %s %s %s %s %s)" % (zlit(hid), zlit(prio), c_kw(hkw),
+                                              "None" if fac is None else "(Some %s)" % zlit(fac), c_beh(beh)))
+    inp = "(%s, %s, (%s, %s))" % (typ, tlist(regs, "sreg"), c_kw(case["kw"]), c_omp(case.get("mp")))
     if not cb["has"]:
         evr = "ENone"
     elif cb["evr"] == ["b", False]:
         evr = "EFalse"
     else:
         evr = "(ERes %s)" % c_result(cb["evr"])
-    seen = coqlist("(%s, %s)" % (zlit(h), c_kw(kw)) for h, kw in out["seen"])
-    return "(%s, (mkSO %s %s false RNone, %s))" % (inp, seen, c_kw(cb["kw"]), evr)
+    seen = tlist(("(%s, (%s, %s))" % (zlit(h), c_kw(kw), c_omp(mp)) for h, kw, mp in out["seen"]), "(Z * sstate)")
+    return "(%s, (mkSO %s (%s, %s) false RNone, %s))" % (inp, seen, c_kw(cb["kw"]), c_omp(cb["mp"]), evr)
 
 
 def oracle_sync(case, out):
+    """Independent of the model: replay the handlers' ACTUAL return values over the registration data."""
     fails = []
     if out.get("boot_error"):
         return [{"sig": "machine-does-not-boot", "what": "MPF does not boot on this tree: " + out["boot_error"]}]
@@ -1181,37 +1896,56 @@ def oracle_sync(case, out):
     if len(out["cbs"]) != 1:
         return [{"sig": "sync-callback-count", "what": "callback fired %d times" % len(out["cbs"])}]
     cb = out["cbs"][0]
-    order = [h for h, p, b in sorted(case["hs"], key=lambda x: -x[1])]
+    typ = case["type"]
+    hs = [sync_fields(h) for h in case["hs"]]
+    order = sorted(hs, key=lambda x: -x[1])
     seen = out["seen"]
     ret = dict((h, r) for h, r in out["returned"])
     kw = dict((k, v) for k, v in case["kw"])
-    called = [h for h, _ in seen]
+    mp = case.get("mp")
+    called = [s[0] for s in seen]
     expect_called = []
     aborted = False
-    for h in order:
-        expect_called.append(h)
-        # what the handler must have seen: posted kwargs updated by all earlier dict results (relay only)
-        mine = [s for s in seen if s[0] == h]
-        if mine and mine[0][1] != sorted([k, v] for k, v in kw.items()):
-            fails.append({"sig": "relay-fold" if case["type"] == "relay" else "kwargs-changed",
-                          "what": "handler %s saw %s, expected %s" % (h, mine[0][1], sorted(kw.items()))})
+    blocking = False
+    for hid, prio, beh, hkw, fac in order:
+        if mp is not None and fac is not None:
+            facs = dict((f, p) for f, p in mp[1])
+            if mp[0] > prio or (fac in facs and facs[fac] > prio):
+                blocking = True
+                continue                       # blocked by _min_priority: must not be called
+        expect_called.append(hid)
+        # what the handler must have seen: the kwargs as updated by all earlier handlers, overridden by its own
+        view = dict(kw)
+        for k, v in hkw:
+            view[k] = v
+        want = [sorted([k, v] for k, v in view.items()), None if mp is None else [mp[0], sorted(mp[1])]]
+        mine = [s for s in seen if s[0] == hid]
+        if mine and mine[0][1:] != want:
+            fails.append({"sig": "relay-fold" if typ == "relay" else "sync-handler-kwargs",
+                          "what": "handler %s (registered kwargs %s) saw %s, expected %s; posted %s"
+                                  % (hid, hkw, mine[0][1:], want, case["kw"])})
             break
-        r = ret.get(h)
+        r = ret.get(hid)
         if r is None:
             break
-        if case["type"] == "relay" and r[0] == "d":
+        if typ == "relay" and r[0] in ("d", "dm"):
             for k, v in r[1]:
                 kw[k] = v
-        if case["type"] == "boolean" and r == ["b", False]:
+        if r[0] == "dm":
+            mp = r[2]
+        if typ == "boolean" and r == ["b", False]:
             aborted = True
             break
-    if called != expect_called:
-        fails.append({"sig": "boolean-first-false" if case["type"] == "boolean" else "sync-handler-order",
-                      "what": "handlers called %s, expected %s" % (called, expect_called)})
-    if cb["kw"] != sorted([k, v] for k, v in kw.items()):
-        fails.append({"sig": "relay-final-kwargs" if case["type"] == "relay" else "callback-kwargs",
-                      "what": "callback got %s, expected %s" % (cb["kw"], sorted(kw.items()))})
-    if case["type"] == "boolean":
+    if not fails and called != expect_called:
+        sig = "boolean-first-false" if typ == "boolean" and not blocking else \
+              ("min-priority-blocking" if blocking else "sync-handler-order")
+        fails.append({"sig": sig, "what": "handlers called %s, expected %s" % (called, expect_called)})
+    if not fails:
+        want = [sorted([k, v] for k, v in kw.items()), None if mp is None else [mp[0], sorted(mp[1])]]
+        if [cb["kw"], cb["mp"]] != want:
+            fails.append({"sig": "relay-final-kwargs" if typ == "relay" else "callback-kwargs",
+                          "what": "callback got %s, expected %s" % ([cb["kw"], cb["mp"]], want)})
+    if typ == "boolean":
         if aborted and not (cb["has"] and cb["evr"] == ["b", False]):
             fails.append({"sig": "boolean-result", "what": "a handler returned False but the callback got ev_result=%s" % cb["evr"]})
         if not aborted and cb["has"] and cb["evr"] == ["b", False]:
@@ -1225,22 +1959,35 @@ def shrink_sync(case):
         yield dict(case, hs=hs[:i] + hs[i + 1:])
     for i in range(len(case["kw"])):
         yield dict(case, kw=case["kw"][:i] + case["kw"][i + 1:])
+    if case.get("mp") is not None:
+        yield dict(case, mp=None)
+    for i, h in enumerate(hs):
+        h = sync_fields(h)
+        if h[3] or h[4] is not None:
+            yield dict(case, hs=hs[:i] + [h[:3] + [[], None]] + hs[i + 1:])
+            yield dict(case, hs=hs[:i] + [h[:3] + [h[3], None]] + hs[i + 1:])
 
 
 def nontrivial_sync(case, out):
     rs = [r for _, r in out.get("returned", [])]
     if case["type"] == "relay":
-        return any(r[0] == "d" and r[1] for r in rs)
+        return any(r[0] in ("d", "dm") and (r[1] or r[0] == "dm") for r in rs)
     if case["type"] == "boolean":
         return ["b", False] in rs
     return len(rs) > 1
 
 
 def describe_sync(case):
-    return "%s handlers=%d" % (case["type"], len(case["hs"]))
+    hs = [sync_fields(h) for h in case["hs"]]
+    return "%s handlers=%d posted=%s hkw=%s mp=%s" % (
+        case["type"], len(hs), "empty" if not case["kw"] else "args", any(h[3] for h in hs),
+        case.get("mp") is not None or any(h[2][0] == "block" or (h[2][0] == "const" and h[2][1][0] == "dm") for h in hs))
 
 
 HDR_QUEUE = "From C02 Require Import Model.\nDefinition run := queue_run.\nDefinition out_eqb := outcome_eqb.\n"
+HDR_RELAY = ("From C02 Require Import Model Relay.\nDefinition c02_relay_cfg := %s.\n"
+             "Definition run := relay_run.\nDefinition out_eqb := relay_out_eqb.\n" % RELAY_CFG_COQ)
+HDR_BALLEND = "From C02 Require Import Model ModeCtl.\nDefinition run := ballend_run.\nDefinition out_eqb := ballend_out_eqb.\n"
 HDR_SYNC = "From C02 Require Import Model.\nDefinition run := sync_run.\nDefinition out_eqb := sync_out_eqb.\n"
 
 SUITES = [
@@ -1248,6 +1995,10 @@ SUITES = [
           {"quick": 1500, "thorough": 40000}, worker_init=_init_queue, shard=250, describe=describe_queue),
     Suite("mode", gen_mode, run_mode, HDR_QUEUE, coq_mode, oracle_mode, shrink_mode, nontrivial_mode,
           {"quick": 400, "thorough": 8000}, worker_init=_init_mode, shard=200, describe=describe_mode),
+    Suite("relay", gen_relay, run_relay, HDR_RELAY, coq_relay, oracle_relay, shrink_relay, nontrivial_relay,
+          {"quick": 500, "thorough": 10000}, worker_init=_init_relay, shard=250, describe=describe_relay),
+    Suite("ballend", gen_ballend, run_ballend, HDR_BALLEND, coq_ballend, oracle_ballend, shrink_ballend, nontrivial_ballend,
+          {"quick": 400, "thorough": 8000}, worker_init=_init_ballend, shard=200, describe=describe_ballend),
     Suite("sync", gen_sync, run_sync, HDR_SYNC, coq_sync, oracle_sync, shrink_sync, nontrivial_sync,
           {"quick": 1000, "thorough": 30000}, worker_init=_init_queue, shard=500, describe=describe_sync),
 ]
@@ -1257,12 +2008,20 @@ LEVEL_TEXT = ("Machine-checked proof (Coq) over an executable model of the event
               "handler scripts, nestings and environment schedules, a dispatcher never continues while the wait of its "
               "previous handler is outstanding, calls its callback at most once and only after its whole handler snapshot "
               "ran in priority order, and - when no handler hands its queue object on to another queue event - every "
-              "posted queue event has completed exactly once whenever the loop is idle and nothing is outstanding; relay "
-              "and boolean folding are proved against an independent specification.  The model is tied to /repo by "
-              "running both on the same generated scripts on every run (real EventManager and real Mode objects).")
-LEVEL_NOTE = ("Trusted: Coq kernel + vm_compute; no axioms.  Model hand-written; the asyncio FIFO scheduling it assumes is "
-              "validated by the correspondence run.  Two defects of the unchanged tree are refuted on the model "
-              "(nested_shared_queue_refuted, removed_handlers_callback_lost_refuted) and repaired by fixes/C02-*.patch; the "
-              "model describes the fixed code.")
-TECHNIQUE = "Coq proof (invariants over a small-step machine) + differential correspondence (vm_compute) + direct trace oracle"
+              "posted queue event has completed whenever the loop is idle and nothing is outstanding.  Clients of queue "
+              "events: for all histories the queue relay player's handler registry and instance dicts stay in step, a "
+              "wait_for event / a stopping context releases exactly its own queues exactly once and no blocked queue is "
+              "orphaned; ModeController._ball_ending holds the ball_ending queue exactly as long as a running game mode "
+              "(active or already stopping) has not finished stopping and clears it exactly once.  Relay and boolean "
+              "folding incl. handler-registered kwargs and _min_priority blocking are proved against an independent "
+              "positional specification.  All models are tied to /repo by running both on the same generated scripts on "
+              "every run (real EventManager, Mode, QueueRelayPlayer, QueueEventPlayer, ModeController objects).")
+LEVEL_NOTE = ("Trusted: Coq kernel + vm_compute; no axioms.  Models hand-written; the asyncio FIFO scheduling they assume is "
+              "validated by the correspondence run.  Three defects of the original tree are refuted on the model "
+              "(nested_shared_queue_refuted, removed_handlers_callback_lost_refuted, qep_args_callback_refuted) and "
+              "repaired by fixes/C02-*.patch; the model describes the fixed code.  queue_callback_once_after_waits is "
+              "proved as _partial (completion at idle; uniqueness of post numbers across containers not proved, checked by "
+              "oracle + correspondence).  The relay-player and mode-controller models are abstract state machines composed "
+              "with / observed next to the event-manager machine, not one monolithic model.")
+TECHNIQUE = "Coq proof (invariants over small-step machines) + differential correspondence (vm_compute) + direct trace oracle"
 DESIGN_REF = "DESIGN.md section 3, C02"
